@@ -126,5 +126,23 @@ public:
   uint32_t extra_context;
 };
 
+#ifdef NAKEN_ASM_VERIF
+// Verification hook: reports every label binding (name, location counter
+// in address units, and the value already recorded for that name, if any).
+typedef void (*naken_asm_verif_label_cb_t)(
+  AsmContext *asm_context,
+  const char *name,
+  uint32_t value,
+  int found,
+  uint32_t recorded);
+
+extern naken_asm_verif_label_cb_t naken_asm_verif_label_cb;
+
+void naken_asm_verif_label(
+  AsmContext *asm_context,
+  const char *name,
+  uint32_t value);
+#endif
+
 #endif
 
